@@ -45,6 +45,11 @@ CHECKS = {
             "own pointer resolver, that selected parts equal the fragment, everything else equals the old document, merging is idempotent, the generated JSON patch reproduces the "
             "target under strict JSON equality, filters return sub-documents containing every selected part, and several generators over one file equal sequential merging.",
             "Trusted: the resolver in vf/props/c13.py. Inputs on which the third-party jsonpatch library itself does not round-trip are counted and skipped. Two known findings (array elements selected by a pattern).", "4/C13"),
+    "C14": ("stream monitors on the shipped policy generators: production ACL step, block-path recording at every yield, per-namespace reference/definition readers, recording proxies on statement.match/then for error-before-lines",
+            "Random RouteMap programs over type-consistent entity sets drive the shipped huawei/arista generators through _run_partial_generator(use_acl=True) and the cumulus text "
+            "generator; the run observes that no own line is refused by the ACL, that the parsed nesting equals the yielded block paths, that every list name a policy line refers "
+            "to is defined by the list generators in the same namespace, and - with recording proxies segmenting the stream per condition/action - that no error follows lines of the same construct.",
+            "Trusted: the syntax readers of the three vendors in vf/props/c14.py. Misuse of a list of the wrong type is outside the domain.", "4/C14"),
     "C16": ("relational (differential) monitor between two real front ends on the same inputs, including the CLI file workers on files in a scratch directory",
             "Every fixture pair, per-vendor cross products and random recombinations of fixture trees, for stub hardware and the hardware families the templates branch on, are run "
             "through _read_old_new_diff_patch / file_patch_worker / file_diff_worker and through _diff_and_patch; ordered command paths and diff entries must be equal.",
